@@ -85,7 +85,7 @@ def body_of(src, header_re, what):
 
 
 def process_body(src, name):
-    return body_of(src, r"int\s+GKFparser::%s\s*\(\s*const\s+char\s*\*\*\s*atts\s*\)\s*\{" % name, name)
+    return body_of(src, r"int\s+GKFparser::%s\s*\(\s*const\s+char\s*\*\*\s*atts\s*(?:,\s*bool\s+\w+\s*)?\)\s*\{" % name, name)
 
 
 def ws(s):
@@ -120,6 +120,21 @@ def parse_point(src):
         roles["z"] = var_of[s2d[mz.group(1)]]
     except (KeyError, AttributeError) as e:
         raise DocError(f"process_point: cannot follow coordinates to set_xy/set_z ({e})")
+    # 6848bc2a: the coordinate setters are guarded for a point inside <coordinates> (`observed`):
+    #   if (!(observed && SB[pp_id].test_xy())) SB[pp_id].set_xy(dx, dy);   likewise set_z / test_z()
+    # recognised shapes: unguarded statement (guard False) or exactly this guard (True); anything else is not modelled
+    sig = re.search(r"GKFparser::process_point\s*\(\s*const\s+char\s*\*\*\s*atts\s*(?:,\s*bool\s+(\w+)\s*)?\)", src)
+    obsvar = sig.group(1) if sig and sig.group(1) else None
+    guards = {}
+    for grp, setter, test in (("xy", "set_xy", "test_xy"), ("z", "set_z", "test_z")):
+        mm = re.search(r"(if\s*\(([^;{}]*)\)\s*)?SB\[%s\]\.%s\s*\(" % (idvar, setter), b)
+        cond = re.sub(r"\s+", "", mm.group(2)) if mm and mm.group(1) else None
+        if cond is None:
+            guards[grp] = False
+        elif obsvar and cond == f"!({obsvar}&&SB[{idvar}].{test}())":
+            guards[grp] = True
+        else:
+            raise DocError(f"process_point: guard of {setter} not recognised: {cond}")
     # pp_x = dx … used by process_coords_point
     pp = {}
     for lhs, rhs in re.findall(r"\b(pp_[xyz])\s*=\s*(\w+)\s*;", b):
@@ -149,17 +164,20 @@ def parse_point(src):
     if sorted(roles.values()) != sorted(a for a, _ in pairs):
         raise DocError(f"process_point: attributes {sorted(a for a, _ in pairs)} vs roles {roles}")
     return {"attrs": [a for a, _ in pairs], "roles": roles, "adj": codes[kinds["adj"]], "fix": codes[kinds["fixed"]],
-            "order": order, "pp": pp}
+            "order": order, "pp": pp, "guards": guards, "obsvar": obsvar}
 
 
 def parse_coords_point(src):
     b = process_body(src, "process_coords_point")
-    if not re.search(r"process_point\s*\(\s*atts\s*\)", b):
+    m = re.search(r"process_point\s*\(\s*atts\s*(?:,\s*(\w+)\s*)?\)", b)
+    if not m:
         raise DocError("process_coords_point does not call process_point")
-    out = {}
+    if m.group(1) not in (None, "true", "false"):
+        raise DocError(f"process_coords_point: argument `observed` of process_point not a literal: {m.group(1)}")
+    out = {"observed": m.group(1) == "true"}
     for cls, a, v in re.findall(r"new\s+([XYZ])\s*\(\s*(\w+)\s*,\s*(\w+)\s*\)", b):
         out[cls] = v
-    if set(out) != {"X", "Y", "Z"}:
+    if set(out) != {"X", "Y", "Z", "observed"}:
         raise DocError("process_coords_point: X/Y/Z constructors not found")
     return out
 
@@ -527,7 +545,8 @@ def refine_site(net):
     a = body_of(net, r"bool\s+LocalNetwork::refine_adjustment\s*\(\s*\)\s*\{", "refine_adjustment")
     shape = re.sub(r"\s+", "", a)
     want = ("clear_linearization_iterations();while(next_linearization_iterations()){boolrefine=refine_obsdh_reductions(this);"
-            "if(!refine)refine=TestLinearization(this);if(!refine)break;increment_linearization_iterations();"
+            "if(!refine)refine=TestLinearization(this);if(!refine)refine=refine_obsdh_reductions(this,true);"
+            "if(!refine)break;increment_linearization_iterations();"
             "refine_approx_coordinates();}returnlinearization_iterations()>0;")
     out["loop"] = shape == want
     nb = body_of(net, r"bool\s+LocalNetwork::next_linearization_iterations\s*\(\s*\)\s*const\s*\{", "next_linearization_iterations") \
@@ -544,6 +563,16 @@ def generate(repo):
     obs = strip_comments((repo / "lib/gnu_gama/local/observation.cpp").read_text())
     P = parse_point(gkf)
     CP = parse_coords_point(gkf)
+    # every other caller of process_point (the `<point>` element of <points-observations>) passes no `observed`, and the
+    # header's default is false
+    calls = re.findall(r"(?<!::)\bprocess_point\s*\(([^)]*)\)", gkf)
+    other = sorted(ws(c) for c in calls if ws(c) not in ("atts,true", "atts,false") or not CP["observed"])
+    if P["obsvar"]:
+        hdr = strip_comments((repo / "lib/gnu_gama/xml/gkfparser.h").read_text())
+        if not re.search(r"process_point\s*\(\s*const\s+char\s*\*\*\s*atts\s*,\s*bool\s+\w+\s*=\s*false\s*\)", hdr):
+            raise DocError("gkfparser.h: default of process_point's `observed` is not false")
+    if [c for c in other if c != "atts"] or len(calls) != 2:
+        raise DocError(f"process_point is called as {sorted(ws(c) for c in calls)}")
     PR, PV = parse_parameters(gkf)
     NN, AX, AN, ENUM, LEFT = parse_network(gkf, lco)
     PO = simple_names(gkf, "process_point_obs")
@@ -603,6 +632,14 @@ def generate(repo):
           f"def adjBeforeFix : Bool := {'true' if P['order'] == 'adjThenFix' else 'false'}", "",
           "/-- process_coords_point: which `pp_*` feeds `new X / Y / Z` (as roles of the attribute they come from) -/",
           f"def coordObsSrc : PRole × PRole × PRole := (.{role_of[P['pp'][CP['X']]]}, .{role_of[P['pp'][CP['Y']]]}, .{role_of[P['pp'][CP['Z']]]})",
+          "",
+          "/-- process_point: `if (!(observed && SB[pp_id].test_xy())) SB[pp_id].set_xy(dx, dy);` — a point that is an observation",
+          "    (`observed`) does not replace coordinates the point already has (true since 6848bc2a; false: unguarded setter) -/",
+          f"def observedKeepsXY : Bool := {'true' if P['guards']['xy'] else 'false'}",
+          "/-- … `if (!(observed && SB[pp_id].test_z())) SB[pp_id].set_z(dz);` -/",
+          f"def observedKeepsZ : Bool := {'true' if P['guards']['z'] else 'false'}",
+          "/-- process_coords_point calls `process_point(atts, true)`; the `<point>` of <points-observations> `process_point(atts)` -/",
+          f"def coordsPointObserved : Bool := {'true' if CP['observed'] else 'false'}",
           ""]
     # parameters
     L += ["/-! ## GKFparser::process_parameters -/", "",
@@ -689,7 +726,7 @@ def generate(repo):
           f"def refineXY : Bool × Nat × Nat × Nat := ({'true' if RF['xy'][0] else 'false'}, {RF['xy'][1][0]}, {RF['xy'][1][1]}, {RF['xy'][1][2]})",
           "/-- 'Z': `LocalPoint& b = PD[cb]; b.set_z(b.z() + x(i)/D)` -/",
           f"def refineZ : Bool × Nat := ({'true' if RF['z'][0] else 'false'}, {RF['z'][1][0]})",
-          "/-- refine_adjustment is `while (next) { refine = obsdh(); if (!refine) refine = Test(); if (!refine) break; ++it; refine_approx_coordinates(); }` -/",
+          "/-- refine_adjustment is `while (next) { refine = obsdh(); if (!refine) refine = Test(); if (!refine) refine = obsdh(adjusted); if (!refine) break; ++it; refine_approx_coordinates(); }` -/",
           f"def refineLoopShape : Bool := {'true' if RF['loop'] else 'false'}", "",
           "/-- `latitude` is written in gons (`latitude()*200/M_PI`), the unit process_parameters reads -/",
           f"def latitudeInGons : Bool := {'true' if W['consts']['latitudeInGons'] else 'false'}", "",
